@@ -1,0 +1,89 @@
+//go:build verif
+
+package kway
+
+// Contracts for the govc verifier (/verif/DESIGN.md, C09). Comment-only.
+//
+// The five heap.Interface methods of Heap (what container/heap relies on).
+//@ func (*kway.Heap).Len -> n
+//@ props C09
+//@ ensures n == len(*h)
+//
+//@ func (*kway.Heap).Less -> r
+//@ props C09
+//@ requires 0 <= i && i < len(*h) && 0 <= j && j < len(*h) && wf((*h)[i].Key) && wf((*h)[j].Key)
+//@ ensures r == (cmp((*h)[i].Key, (*h)[j].Key) < 0 || (cmp((*h)[i].Key, (*h)[j].Key) == 0 && (*h)[i].LI < (*h)[j].LI))
+//
+//@ func (*kway.Heap).Swap
+//@ props C09
+//@ requires 0 <= i && i < len(*h) && 0 <= j && j < len(*h)
+//@ assigns (*h)[*]
+//@ ensures (*h)[i] == old((*h)[j]) && (*h)[j] == old((*h)[i]) && all(k, 0, len(*h), (k != i && k != j) ==> (*h)[k] == old((*h)[k]))
+//
+//@ func (*kway.Heap).Push
+//@ props C09
+//@ requires tag(x) == tagof(Element)
+//@ assigns *h, (*h)[*]
+//@ ensures len(*h) == old(len(*h)) + 1 && (*h)[len(*h)-1] == unbox(Element, x) && all(k, 0, old(len(*h)), (*h)[k] == old((*h)[k]))
+//
+//@ func (*kway.Heap).Pop -> r
+//@ props C09
+//@ requires len(*h) > 0
+//@ assigns *h
+//@ ensures len(*h) == old(len(*h)) - 1 && tag(r) == tagof(Element) && unbox(Element, r) == old((*h)[len(*h)-1]) && all(k, 0, len(*h), (*h)[k] == old((*h)[k]))
+//
+//@ func kway.merge$1 -> r
+//@ props C09
+//@ requires wf(a.Key) && wf(b.Key)
+//@ ensures r == cmp(a.Key, b.Key)
+//
+// merge: the result holds, for every versioned key of the inputs, one input entry with that key
+// (tombstones included when keepTombstones), nothing else, strictly sorted by CompareKeys.
+// Ghost state: MPos[a] entries taken from list a so far; LSrcA/LSrcI[k] where latest[k] came from;
+// MIdx[k] position of key k in merged.
+//@ ghost MPos (Array Int Int)
+//@ ghost LSrcA (Array Str Int)
+//@ ghost LSrcI (Array Str Int)
+//@ ghost MIdx (Array Str Int)
+//@ define len0(a) = old(len(lists[a]))
+//@ define listsShift(n) = all(a, 0, n, 0 <= MPos[a] && MPos[a] <= len0(a) && arrid(lists[a]) == old(arrid(lists[a])) && offof(lists[a]) == old(offof(lists[a])) + MPos[a] && len(lists[a]) == len0(a) - MPos[a])
+//@ define latestOK(n) = forall(Str(k), has(latest, k) ==> (latest[k].Key == k && wf(k) && 0 <= LSrcA[k] && LSrcA[k] < n && 0 <= LSrcI[k] && LSrcI[k] < old(len(lists[now(LSrcA[k])])) && latest[k] == old(lists[now(LSrcA[k])][now(LSrcI[k])])), trig(dom(latest, k)))
+//
+//@ func kway.merge -> r
+//@ props C09
+//@ requires forall(Int(a), Int(i), (0 <= a && a < len(lists) && 0 <= i && i < len(lists[a])) ==> (wf(lists[a][i].Key) && canon(lists[a][i].Key)))
+//@ assigns lists[*], MPos, LSrcA, LSrcI, MIdx, HB, HElem, HN, SortSrc, SortInv, heap:A|kway.Element
+//@ ensures all(j, 0, len(r), wf(r[j].Key) && canon(r[j].Key) && 0 <= LSrcA[r[j].Key] && LSrcA[r[j].Key] < len(lists) && 0 <= LSrcI[r[j].Key] && LSrcI[r[j].Key] < old(len(lists[now(LSrcA[r[j].Key])])) && r[j] == old(lists[now(LSrcA[r[j].Key])][now(LSrcI[r[j].Key])]))
+//@ ensures keepTombstones ==> forall(Int(a), Int(i), (0 <= a && a < len(lists) && 0 <= i && i < len0(a)) ==> ex(j, 0, len(r), r[j].Key == old(lists[a][i]).Key))
+//@ ensures forall(Int(a), Int(b), (0 <= a && a < b && b < len(r)) ==> cmp(r[a].Key, r[b].Key) < 0)
+//@ ensures !keepTombstones ==> all(j, 0, len(r), !r[j].Tombstone)
+//@ before_call heap.Init#0: ghost MPos = zeroIntArray
+//@ after_call heap.Push#0: ghost MPos = store(MPos, i, 1)
+//@ after_call mapupdate#0: ghost LSrcA = store(LSrcA, mapkey, e.LI)
+//@ after_call mapupdate#0: ghost LSrcI = store(LSrcI, mapkey, MPos[e.LI] - 1)
+//@ after_call heap.Push#1: ghost MPos = store(MPos, e.LI, MPos[e.LI] + 1)
+//@ after_call append#0: ghost MIdx = store(MIdx, entry.Key, len(result) - 1)
+//@ after_call slices.SortFunc[[]types.Entry types.Entry]#0: assert all(j, 0, len(merged), 0 <= SortSrc[j] && SortSrc[j] < len(merged) && MIdx[merged[j].Key] == SortSrc[j] && has(latest, merged[j].Key) && merged[j] == latest[merged[j].Key] && (keepTombstones || !merged[j].Tombstone))
+//@ after_call slices.SortFunc[[]types.Entry types.Entry]#0: assert forall(Int(a), Int(b), (0 <= a && a < b && b < len(merged)) ==> merged[a].Key != merged[b].Key)
+//@ loop 0:
+//@   invariant h != nil && heapRep(h) && listsShift(len(lists))
+//@   invariant all(a, 0, len(lists), MPos[a] == ite(a <= rangeindex && len0(a) > 0, 1, 0))
+//@   invariant forall(Int(a), HB[ref(h)][a] == (0 <= a && a <= rangeindex && a < len(lists) && len0(a) > 0), trig(HB[ref(h)][a]))
+//@   invariant forall(Int(a), HB[ref(h)][a] ==> (HElem[ref(h)][a].LI == a && HElem[ref(h)][a].Entry == old(lists[a][0])), trig(HB[ref(h)][a]))
+//@ loop 1:
+//@   invariant h != nil && heapRep(h) && latest != nil && listsShift(len(lists)) && latestOK(len(lists))
+//@   invariant forall(Int(a), HB[ref(h)][a] ==> (0 <= a && a < len(lists) && MPos[a] >= 1 && HElem[ref(h)][a].LI == a && HElem[ref(h)][a].Entry == old(lists[a][now(MPos[a]) - 1])), trig(HB[ref(h)][a]))
+//@   invariant all(a, 0, len(lists), !HB[ref(h)][a] ==> MPos[a] == len0(a))
+//@   invariant forall(Int(a), Int(i), (0 <= a && a < len(lists) && 0 <= i && i < MPos[a] - ite(HB[ref(h)][a], 1, 0)) ==> has(latest, old(lists[a][i]).Key))
+//@ loop 2:
+//@   invariant latest != nil && latestOK(len(lists)) && (arrid(merged) >= old(alloc) || cap(merged) == 0)
+//@   invariant forall(Int(a), Int(i), (0 <= a && a < len(lists) && 0 <= i && i < len0(a)) ==> has(latest, old(lists[a][i]).Key))
+//@   invariant all(j, 0, len(merged), has(latest, merged[j].Key) && merged[j] == latest[merged[j].Key] && seen[merged[j].Key] && MIdx[merged[j].Key] == j && (keepTombstones || !merged[j].Tombstone))
+//@   invariant forall(Str(k), (seen[k] && (keepTombstones || !latest[k].Tombstone)) ==> (0 <= MIdx[k] && MIdx[k] < len(merged) && merged[MIdx[k]].Key == k), trig(seen[k]))
+//
+//@ func kway.Merge -> r
+//@ props C09
+//@ inline
+//@ func kway.MergeVersions -> r
+//@ props C09
+//@ inline
